@@ -29,7 +29,7 @@ def variants(rng, pk, dsb_text, hist):
     out = []
     us = [(p["ts"], p["frame"]) for p in pk]
     for endian in "<>":
-        for resol in (6, 9, 3 if all(t % 1000 == 0 for t, _ in us) else 7, (2, 20), (2, 30), (2, 40), 12):
+        for resol in (6, 9, 3 if all(t % 1000 == 0 for t, _ in us) else 7, (2, 20), (2, 30), (2, 40), 12, 0, (2, 0), 1):
             k = 10 ** resol if isinstance(resol, int) else 2 ** resol[1]
             # only resolutions that can express the microsecond times exactly (or finer)
             if any((t * k) % 10 ** 6 for t, _ in us):
@@ -39,7 +39,7 @@ def variants(rng, pk, dsb_text, hist):
                 continue
             extra = []
             if rng.randrange(2):
-                extra = [("pre_idb", rng.choice(["nrb", "isb", "custom"])), (rng.randrange(len(pkts)) if pkts else "end", rng.choice(["nrb", "isb", "custom", "idb2"])), ("end", "isb")]
+                extra = [("pre_idb", rng.choice(["nrb", "isb", "custom"])), (rng.randrange(len(pkts)) if pkts else "end", rng.choice(["nrb", "isb", "custom", "idb2", "bigcustom"])), ("end", "isb")]
             label = "pcapng %s-endian, if_tsresol %s%s%s" % ("little" if endian == "<" else "big", resol, ", extra blocks" if extra else "", "")
             use_pb = rng.randrange(4) == 0
             out.append((label + (", obsolete packet blocks" if use_pb else ""), synth.pcapng(pkts, endian=endian, tsresol=resol, dsbs_before=[dsb_text] if dsb_text else (), extra_blocks=extra, use_pb=use_pb), False))
@@ -77,6 +77,11 @@ def main():
     for i, case in enumerate(pool.cases(rng, table, hist, n, noise_share=0.2)):
         args = ["-a"] if i % 3 == 0 else []
         with_dsb = (i % 2 == 0)
+        if i % 3 == 2:
+            # a capture clock that ticks in whole seconds: resolutions 10^0 and 2^0 can then express the times
+            for j, p in enumerate(case.packets):
+                p["ts"] = (1_700_000_000 + 3 * j) * 10 ** 6
+            hist["clock=whole-seconds"] += 1
         ref_file = capgen.to_pcapng(case.packets)
         st, ref = impl.run(ref_file, case.keylog, args)
         for label, data, legacy in variants(rng, case.packets, case.keylog if with_dsb else None, hist):
